@@ -15,7 +15,8 @@ def _work(item):
     if deadline and time.time() > deadline:
         return {"program": f"{spec['fam']} {spec['which']} [{spec['relation']}] {spec['op1']} || {spec['op2']}", "verdict": "not-explored (time budget)", "queries": 0, "solver_s": 0, "replays": 0, "events": 0, "witnesses": [], "spec": spec}
     fam = hlib.FAM[spec["fam"]]
-    prog = conc.Prog(fam, spec["which"], spec["relation"], spec["op1"], spec["op2"], ctx=tuple(spec["ctx"]) if spec.get("ctx") else None)
+    prog = conc.Prog(fam, spec["which"], spec["relation"], spec["op1"], spec["op2"], ctx=tuple(spec["ctx"]) if spec.get("ctx") else None,
+                     outcome_keys=spec.get("outcome_keys"), ignore_values=spec.get("ignore_values", ()))
     is_known = None
     if spec.get("_mod") and spec.get("_pid"):
         try:
